@@ -157,6 +157,32 @@ def _emit(recs, base, variants, extra=None):
         recs.append(r)
 
 
+def _emit_scalar(recs, base, variants):
+    """like _emit for routines that return a number: `got` is the snapped Gaussian integer [re, im]"""
+    groups, order = {}, []
+    for label, dtype, thunk, rej in variants:
+        exc, got = "", [0, 0]
+        try:
+            g = snap_gint(complex(thunk()), TOL[dtype])
+            if g == OFFGRID:
+                exc = "OFFGRID"
+            else:
+                got = g
+        except Exception as ex:  # noqa: an exception is an observation, the spec decides
+            exc = type(ex).__name__
+        key = (exc, got[0], got[1])
+        if key not in groups:
+            groups[key] = [[], got, exc, True]
+            order.append(key)
+        groups[key][0].append(label)
+        groups[key][3] = groups[key][3] and bool(rej)
+    for k in order:
+        labels, got, exc, rej = groups[k]
+        r = dict(base)
+        r.update({"got": got, "exc": exc, "var": ",".join(labels)[:300], "nv": len(labels), "rej": bool(rej)})
+        recs.append(r)
+
+
 def _prod(xs):
     return int(math.prod(int(x) for x in xs))
 
@@ -381,7 +407,7 @@ def replay_sel_case(rng, recs, dims, sel, ci, src, thorough):
                 if fmt != "dense" and degenerate:
                     continue  # the sparse route is the known finding there (reported by the ptr event)
                 r = dict(tag, ev="adjoint", A=_mat(A if cplx else A.real), x=_mat(x if cplx else x.real), dims=dims, keep=sel,
-                         kind=kind, fmt=fmt, exc="", trE=[0, 0], trP=[0, 0])
+                         kind=kind, fmt=fmt, exc="", trE=[0, 0], trP=[0, 0], xdo=bool(dsel > 1), xexc="", xE=[0, 0], xP=[0, 0])
                 try:
                     dt = dts[0]
                     Av, xv = _cast(A, fmt, dt), _cast(x, fmt, dt)
@@ -389,8 +415,19 @@ def replay_sel_case(rng, recs, dims, sel, ci, src, thorough):
                         E = qu.ikron(Av, dims, ks)
                     else:
                         E = qu.pkron(Av, dims, ks)
-                    E = E.toarray() if sp.issparse(E) else np.asarray(E)
                     red = qu.ptr(xv, dims, sel)
+                    if dsel > 1:
+                        # both sides evaluated by quimb's own expec (A is generic: not Hermitian, not symmetric)
+                        try:
+                            gE = snap_gint(complex(qu.expec(E, xv)), 1e-9)
+                            gP = snap_gint(complex(qu.expec(Av, red)), 1e-9)
+                            if gE == OFFGRID or gP == OFFGRID:
+                                r["xexc"] = "OFFGRID"
+                            else:
+                                r["xE"], r["xP"] = gE, gP
+                        except Exception as ex:  # noqa
+                            r["xexc"] = type(ex).__name__
+                    E = E.toarray() if sp.issparse(E) else np.asarray(E)
                     red = red.toarray() if sp.issparse(red) else np.asarray(red)
                     Ad = A if cplx else A.real
                     xdd = xd if cplx else xd.real
@@ -403,6 +440,38 @@ def replay_sel_case(rng, recs, dims, sel, ci, src, thorough):
                 except Exception as ex:  # noqa
                     r["exc"] = type(ex).__name__
                 recs.append(r)
+
+    # ---- expectation over its whole dispatch table: (ket, ket), (ket, op), (op, ket), (op, op) x dense / sparse,
+    #      with Hermitian, generic (non-Hermitian, non-symmetric), ladder and embedded operators
+    G, G2 = _imat(rng, D, D, cplx), _imat(rng, D, D, cplx)
+    lad = np.diag(np.arange(1, D), 1).astype(complex)          # ladder (creation-like): real, strictly upper triangular
+    phi = _iket(rng, D, cplx)
+    pairs = [("oo-generic", G, G2), ("oo-nonherm-state", G, rho), ("oo-ladder", lad, G2), ("oo-herm-first", rho, G),
+             ("ket-ket", psi, phi), ("ket-op", psi, G), ("op-ket", G, psi), ("op-ket-ladder", lad, psi)]
+    if sel and dsel > 1:
+        try:
+            Ae = _imat(rng, dsel, dsel, cplx)
+            Ee = np.asarray(qu.pkron(_cast(Ae, "dense", dts[0]), dims, sorted(sel)))
+            if _snap(Ee, 1e-9) != OFFGRID and Ee.shape == (D, D):
+                pairs.insert(2, ("oo-embedded", np.rint(Ee.real) + 1j * np.rint(Ee.imag), rho))
+        except Exception:  # noqa: pkron itself is judged by its own event
+            pass
+    if not thorough:
+        # quick tier: the two dense-critical operator pairs always, two of the others rotating with the case
+        rest = pairs[2:]
+        pairs = pairs[:2] + [rest[ci % len(rest)], rest[(ci + 3) % len(rest)]]
+    for pname, a, b in pairs:
+        base = dict(tag, ev="expec", a=_mat(a if cplx else a.real), b=_mat(b if cplx else b.real), pair=pname)
+        var = []
+        combos = [(f, f, dt) for f, dt in _plan(ci, cplx, thorough)] + [("dense", "csr", dts[0]), ("csr", "dense", dts[0])]
+        if thorough:
+            combos += [("csc", "coo", dts[1]), ("coo", "dense", dts[1])]
+        for fa, fb, dt in combos:
+            va, vb = _cast(a, fa, dt, qarray=(ci % 2 == 0)), _cast(b, fb, dt)
+            # (a bsr ket cannot be indexed by scipy: such a call may be refused)
+            rj = (fa == "bsr" and a.shape[1] == 1) or (fb == "bsr" and b.shape[1] == 1)
+            var.append(("%s,%s/%s" % (fa, fb, dt), dt, lambda va=va, vb=vb: qu.expec(va, vb), rj))
+        _emit_scalar(recs, base, var)
 
     # ---- partial transpose, sysa = sel (dense only: the routine is documented for dense states)
     for kind, x in (("dop", rho), ("ket", psi)):
@@ -651,7 +720,7 @@ def observe_large(rng, ncases):
     def rec(op, exp, thunk, rdims, cdims, own=(), note="", rej=False):
         r = {"ev": "large", "tid": 400000 + cur[0], "op": op, "rdims": [int(d) for d in rdims], "cdims": [int(d) for d in cdims],
              "own": [int(o) for o in own], "shape": [0, 0], "dq": 0, "exc": "", "note": note,
-             "rej": bool(rej or (len(own) and note.startswith("bsr")) or (op in ("ptr", "ptr-ket", "adjoint") and note in ("coo", "bsr")))}
+             "rej": bool(rej or (len(own) and note.startswith("bsr")) or (op in ("ptr", "ptr-ket", "adjoint", "expec-duality") and note in ("coo", "bsr")))}
         try:
             g = thunk()
             g = np.asarray(g.toarray() if sp.issparse(g) else g)
@@ -747,6 +816,26 @@ def observe_large(rng, ncases):
             ax[s], ax[s + n] = ax[s + n], ax[s]
         rd = _cast(rho, "dense", dt)
         rec("ptrans", T_.transpose(ax).reshape(D, D), lambda: qu.partial_transpose(rd, dims, sel), dims, dims)
+        # expectation: generic (non-Hermitian) operators and kets, dense / sparse / mixed
+        G1, G2 = rnd(D, D, cplx), rnd(D, D, cplx)
+        g1, g2 = _cast(G1, fmt, dt), _cast(G2, fmt, dt)
+        one = lambda z: np.array([[complex(z)]])  # noqa: E731
+        bk = fmt == "bsr"
+        rec("expec-oo", one(np.trace(G1 @ G2)), lambda: one(qu.expec(g1, g2)), [1], [1], note=fmt)
+        rec("expec-oo-state", one(np.trace(G1 @ rho)), lambda: one(qu.expec(g1, rv)), [1], [1], note=fmt)
+        rec("expec-oo-mixed", one(np.trace(G1 @ G2)), lambda: one(qu.expec(_cast(G1, "dense", dt), g2)), [1], [1], note=fmt)
+        rec("expec-ko", one((psi.conj().T @ G1 @ psi)[0, 0]), lambda: one(qu.expec(kv, g1)), [1], [1], note=fmt, rej=bk)
+        rec("expec-ok", one((psi.conj().T @ G1 @ psi)[0, 0]), lambda: one(qu.expec(g1, kv)), [1], [1], note=fmt, rej=bk)
+        rec("expec-kk", one(abs(np.vdot(psi, G2[:, :1])) ** 2), lambda: one(qu.expec(kv, _cast(G2[:, :1], fmt, dt))), [1], [1], note=fmt, rej=bk)
+        if not sparse_deg:
+            # duality with quimb's own expec on both sides, non-Hermitian operator on the kept sites
+            def dual():
+                red = qu.ptr(rv, dims, sel)
+                redp = qu.permute(np.asarray(red), [dims[s_] for s_ in sorted(sel)], [sorted(sel).index(s_) for s_ in sel]) if len(sel) > 1 else red
+                return one(qu.expec(qu.pkron(Bv, dims, sel), rv) - qu.expec(Bv, redp))
+
+            if ds > 1:
+                rec("expec-duality", np.zeros((1, 1), dtype=complex), dual, [1], [1], note=fmt)
     return recs
 
 
@@ -793,7 +882,7 @@ def run(ctx):
     try:
         # 1. TLC: the laws of the statement on the reference itself + ikron's generator against the reference
         laws = ("LawKron", "LawAdjoint", "LawAdjointOrdered", "LawKetProjector", "LawPTraceProduct", "LawPermuteKron",
-                "LawPermuteEmbed", "LawPKron", "LawPartialTranspose", "LawEmbed", "Emit")
+                "LawPermuteEmbed", "LawPKron", "LawPartialTranspose", "LawEmbed", "LawExpec", "Emit")
         f_laws = pool.submit(_retry, ctx.model_check, "MC_C15Laws", "MC_laws_%s.cfg" % tier, name="laws-on-reference",
                              require_actions=laws, workers=nw)
         # 2. TLC: sparse partial trace. The code variant holds where no subsystem has dimension 1 and something is
@@ -832,8 +921,8 @@ def run(ctx):
         # 5. S->C: the cases of the laws model through ikron / pkron / permute / ptr / partial_transpose
         lres = f_laws.result()
         lcases = T.parse_printed_json(lres.output)
-        # one behaviour per case: 10 laws + the emitting step = 12 states
-        if not lcases or len(lcases) * 12 != lres.distinct or len({(tuple(c["dims"]), tuple(c["sel"]), c["seed"]) for c in lcases}) != len(lcases):
+        # one behaviour per case: 11 laws + the emitting step = 13 states
+        if not lcases or len(lcases) * 13 != lres.distinct or len({(tuple(c["dims"]), tuple(c["sel"]), c["seed"]) for c in lcases}) != len(lcases):
             raise MachineryError("laws model printed %d cases for %d states" % (len(lcases), lres.distinct))
         lcases.sort(key=lambda c: (len(c["dims"]), c["dims"], len(c["sel"]), c["sel"], c["seed"]))
         srecs = []
@@ -881,7 +970,7 @@ def run(ctx):
         pool.shutdown(wait=True)
     ctx.mc.sort(key=lambda m: m["name"])
 
-    for ev in ("ikron", "pkron", "permute", "ptr", "adjoint", "ptrans"):
+    for ev in ("ikron", "pkron", "permute", "ptr", "adjoint", "ptrans", "expec"):
         for r_ in srecs:
             if r_["ev"] == ev and r_.get("exc") == "":
                 ctx.sample({ev: {k: v for k, v in r_.items() if k not in ("tid", "src")}}, cap=8)
@@ -909,11 +998,11 @@ def run(ctx):
     ctx.clauses.update([
         "KronReturns", "KronShape", "KronValue", "KronOwnedRows", "EmbedReturns", "EmbedShape", "EmbedValue", "EmbedOwnedRows",
         "EmbedCoordinatesValue", "PKronReturns", "PKronShape", "PKronValue", "PermuteReturns", "PermuteShape", "PermuteValue",
-        "PtrReturns", "PtrShape", "PtrValue", "PtrCoordinatesValue", "Adjoint", "PTransposeReturns", "PTransposeShape",
+        "PtrReturns", "PtrShape", "PtrValue", "PtrCoordinatesValue", "Adjoint", "AdjointExpec", "ExpecReturns", "ExpecValue", "PTransposeReturns", "PTransposeShape",
         "PTransposeValue", "DimMapValue", "HamFullReturns", "HamOwnedRows", "LargeScopeAgrees",
         "model: OwnRowsExact ClosedFormAgrees ProductCovers GotIsRange DigitsInRange",
         "model: PtrExact PtrShape CompressFaithful DescriptionFits Terminates",
-        "model: AllLawsHold (Kron Adjoint AdjointOrdered KetProjector PTraceProduct PermuteKron PermuteEmbed PKron PartialTranspose Embed)",
+        "model: AllLawsHold (Kron Adjoint AdjointOrdered KetProjector PTraceProduct PermuteKron PermuteEmbed PKron PartialTranspose Embed Expec)",
     ])
     ctx.assumptions += [
         "exact scope: Gaussian-integer matrices, dims over {1,2,3} (TLC recomputes every expected value); larger random scope "
